@@ -14,12 +14,17 @@ WRITTEN in param/parameterized.py:
     object (`… and not is_async: continue`) in the order of the `refs` dict and schedules
     `_async_ref(pname, new_awaitable, ref)` for each, WITHOUT going through `_update_ref`: the new
     task passes the still-current check (same `ref`), finds the older task registered, cancels it
-    and registers itself; the older task's `finally` must leave that registration alone.
+    and registers itself; the older task's `finally` must leave that registration alone;
+  * **rejected results** — an awaitable may complete with a value the parameter's `_validate`
+    rejects (`Env.rej`): `self_.update` raises inside the task, nothing is stored, no event is sent,
+    the `_syncing` scope is left through its `finally`, `_async_ref`'s `finally` removes the
+    registration and the task ends with the exception (the link in `refs` stays).
 
 Every function below is the function of the same name in Model.lean with the write replaced by
 `writeH` (write, then the hook) and the still-current check made on the reference id of the task
-(`rf t`; a task created by an assignment is its own reference, `rf t = t`).  With no hook and no
-`bump` in the schedule the two models coincide step by step (`runH_eq_run`, Async/ExtLemmas.lean);
+(`rf t`; a task created by an assignment is its own reference, `rf t = t`).  With no hook, nothing
+rejected and no `bump` in the schedule the two models coincide step by step (`runH_eq_run`,
+Async/ExtLemmas.lean);
 the theorems of Props/C10.lean are about that fragment, the extension is tied to the code by the
 correspondence run and judged by the oracle only.
 
@@ -32,33 +37,48 @@ namespace ParamVerif.Async
 /-- `(a, b, w)`: on every write of `a`, assign the plain value `w` to `b` -/
 abbrev Hook := Option (Nat × Nat × Int)
 
-/-- src: `Parameter.__set__` with a plain value, followed by the watcher callbacks: the hook's
-nested plain assignment (ghost: it is the most recent assignment to `b`) -/
-def writeH (h : Hook) (s : St) (p : Nat) (v : Int) : St :=
-  let s1 := plainSet s p v
-  match h with
-  | some (a, b, w) =>
-    if p = a then
-      let s2 := plainSet s1 b w
-      { s2 with last := upd s2.last b (.plain w) }
-    else s1
-  | none => s1
+/-- what a run is parametrised by: the watcher hook, and which values the parameters REJECT
+(`Parameter._validate` raises `ValueError`; the harness uses parameters that reject negative numbers) -/
+structure Env where
+  hook : Hook
+  rej : Int → Bool
 
-def scopedUpdateH (h : Hook) (s : St) (p : Nat) (v : Int) : St :=
+/-- src: `Parameter.__set__` with a plain value: `_validate(val)` comes before the store and before
+the deferred unlink, so a rejected value changes nothing (`none`); otherwise store, unlink, then the
+watcher callbacks: the hook's nested plain assignment (ghost: it is the most recent assignment to `b`) -/
+def writeH (e : Env) (s : St) (p : Nat) (v : Int) : Option St :=
+  if e.rej v then none
+  else
+    let s1 := plainSet s p v
+    match e.hook with
+    | some (a, b, w) =>
+      if p = a then
+        let s2 := plainSet s1 b w
+        some { s2 with last := upd s2.last b (.plain w) }
+      else some s1
+    | none => some s1
+
+/-- `with _syncing(obj, (p,)): obj.param.update({p: v})`: the scope is left through its `finally`
+also when the write raises; `false` = the `ValueError` goes on -/
+def scopedUpdateH (e : Env) (s : St) (p : Nat) (v : Int) : Bool × St :=
   let saved := s.syncing
-  let s1 := writeH h { s with syncing := addName saved p } p v
-  { s1 with syncing := saved }
+  match writeH e { s with syncing := addName saved p } p v with
+  | some s1 => (true, { s1 with syncing := saved })
+  | none => (false, s)
 
-def genLoopH (h : Hook) (t p n : Nat) : Nat → St → St
+def genLoopH (e : Env) (t p n : Nat) : Nat → St → St
   | 0, s => endTask (cleanup s t p) t false
   | r + 1, s =>
     match awaitFut s t (t, n - (r + 1)) (.awaitGen (n - (r + 1))) with
     | (.suspended, s1) => s1
     | (.raised, s1) => endTask (cleanup s1 t p) t true
-    | (.value v, s1) => genLoopH h t p n r (scopedUpdateH h s1 p v)
+    | (.value v, s1) =>
+      match scopedUpdateH e s1 p v with
+      | (true, s2) => genLoopH e t p n r s2
+      | (false, s2) => endTask (cleanup s2 t p) t true      -- the exception leaves `_async_ref` through its `finally`
 
 /-- `rf t`: the reference the task `t` was scheduled for -/
-def stepStartH (c : Cfg) (h : Hook) (rf : Nat → Nat) (s : St) (t : Nat) (x : Task) : St :=
+def stepStartH (c : Cfg) (e : Env) (rf : Nat → Nat) (s : St) (t : Nat) (x : Task) : St :=
   if x.mustCancel then
     s.setTask t { x with pc := .cancelled, mustCancel := false }
   else if c.startCheck && s.refs x.param != some (rf t) then
@@ -74,15 +94,20 @@ def stepStartH (c : Cfg) (h : Hook) (rf : Nat → Nat) (s : St) (t : Nat) (x : T
         match awaitFut { s1 with syncing := addName saved p } t (t, 0) (.awaitCoro saved) with
         | (.suspended, s3) => s3
         | (.raised, s3) => endTask (cleanup { s3 with syncing := saved } t p) t true
-        | (.value v, s3) => endTask (cleanup { (writeH h s3 p v) with syncing := saved } t p) t false
+        | (.value v, s3) =>
+          match writeH e s3 p v with
+          | some s4 => endTask (cleanup { s4 with syncing := saved } t p) t false
+          | none => endTask (cleanup { s3 with syncing := saved } t p) t true
       else
         match awaitFut s1 t (t, 0) .awaitOut with
         | (.suspended, s3) => s3
         | (.raised, s3) => endTask (cleanup s3 t p) t true
-        | (.value v, s3) => endTask (cleanup (scopedUpdateH h s3 p v) t p) t false
-    | .agen n => genLoopH h t p n n s1
+        | (.value v, s3) =>
+          match scopedUpdateH e s3 p v with
+          | (ok, s4) => endTask (cleanup s4 t p) t (!ok)
+    | .agen n => genLoopH e t p n n s1
 
-def stepWakeH (h : Hook) (s : St) (t : Nat) (x : Task) (f : Fid) : St :=
+def stepWakeH (e : Env) (s : St) (t : Nat) (x : Task) (f : Fid) : St :=
   if waitingOn t x.pc != some f then s
   else
     let p := x.param
@@ -98,17 +123,25 @@ def stepWakeH (h : Hook) (s : St) (t : Nat) (x : Task) (f : Fid) : St :=
       let s0 := s.setTask t { x with pc := .running, mustCancel := false }
       match x.pc, r with
       | .awaitCoro saved, none => endTask (cleanup { s0 with syncing := saved } t p) t true
-      | .awaitCoro saved, some v => endTask (cleanup { (writeH h s0 p v) with syncing := saved } t p) t false
+      | .awaitCoro saved, some v =>
+        match writeH e s0 p v with
+        | some s4 => endTask (cleanup { s4 with syncing := saved } t p) t false
+        | none => endTask (cleanup { s0 with syncing := saved } t p) t true
       | .awaitOut, none => endTask (cleanup s0 t p) t true
-      | .awaitOut, some v => endTask (cleanup (scopedUpdateH h s0 p v) t p) t false
+      | .awaitOut, some v =>
+        match scopedUpdateH e s0 p v with
+        | (ok, s4) => endTask (cleanup s4 t p) t (!ok)
       | .awaitGen _, none => endTask (cleanup s0 t p) t true
       | .awaitGen k, some v =>
         match x.kind with
-        | .agen n => genLoopH h t p n (n - (k + 1)) (scopedUpdateH h s0 p v)
+        | .agen n =>
+          match scopedUpdateH e s0 p v with
+          | (true, s4) => genLoopH e t p n (n - (k + 1)) s4
+          | (false, s4) => endTask (cleanup s4 t p) t true
         | .coro => s
       | _, _ => s
 
-def stepReadyH (c : Cfg) (h : Hook) (rf : Nat → Nat) (s : St) : St :=
+def stepReadyH (c : Cfg) (e : Env) (rf : Nat → Nat) (s : St) : St :=
   match s.ready with
   | [] => s
   | (t, w) :: rest =>
@@ -117,16 +150,18 @@ def stepReadyH (c : Cfg) (h : Hook) (rf : Nat → Nat) (s : St) : St :=
     | none => s1
     | some x =>
       match w with
-      | none => if x.pc = .start then stepStartH c h rf s1 t x else s1
-      | some f => stepWakeH h s1 t x f
+      | none => if x.pc = .start then stepStartH c e rf s1 t x else s1
+      | some f => stepWakeH e s1 t x f
 
-def drainH (c : Cfg) (h : Hook) (rf : Nat → Nat) : Nat → St → St
+def drainH (c : Cfg) (e : Env) (rf : Nat → Nat) : Nat → St → St
   | 0, s => s
-  | n + 1, s => if s.ready.isEmpty then s else drainH c h rf n (stepReadyH c h rf s)
+  | n + 1, s => if s.ready.isEmpty then s else drainH c e rf n (stepReadyH c e rf s)
 
-def assignPlainH (h : Hook) (s : St) (p : Nat) (v : Int) : St :=
-  let s1 := writeH h s p v
-  { s1 with last := upd s1.last p (.plain v) }
+/-- the driver's plain values are valid ones -/
+def assignPlainH (e : Env) (s : St) (p : Nat) (v : Int) : St :=
+  match writeH e s p v with
+  | some s1 => { s1 with last := upd s1.last p (.plain v) }
+  | none => s
 
 /-! ### the extended state and schedule -/
 
@@ -175,8 +210,8 @@ def bumpH (sh : StH) : StH :=
     keys.foldl (fun acc p => match acc.core.refs p with | some r => spawnRef acc p r | none => acc) sh
   else sh
 
-def applyEventH (c : Cfg) (h : Hook) (sh : StH) : EventH → StH
-  | .assign p (.plain v) _ => { sh with core := assignPlainH h sh.core p v }
+def applyEventH (c : Cfg) (e : Env) (sh : StH) : EventH → StH
+  | .assign p (.plain v) _ => { sh with core := assignPlainH e sh.core p v }
   | .assign p src dep =>
     let k : Kind := match src with | .agen n => .agen n | _ => .coro
     let t := sh.core.nTasks
@@ -185,12 +220,15 @@ def applyEventH (c : Cfg) (h : Hook) (sh : StH) : EventH → StH
       order := if keys.contains p then keys else keys ++ [p],
       deps := if dep then sh.deps ++ [t] else sh.deps,
       refOf := sh.refOf }
-  | .tick => { sh with core := drainH c h sh.rf (tickFuel sh.core) sh.core }
+  | .tick => { sh with core := drainH c e sh.rf (tickFuel sh.core) sh.core }
   | .complete t k v => { sh with core := complete sh.core (t, k) v }
   | .bump => bumpH sh
 
 def StH.init (v0 : Int) : StH := { core := St.init v0, order := [], deps := [], refOf := [] }
 
-def runH (c : Cfg) (h : Hook) (evs : List EventH) : StH := evs.foldl (applyEventH c h) (StH.init 0)
+def runH (c : Cfg) (e : Env) (evs : List EventH) : StH := evs.foldl (applyEventH c e) (StH.init 0)
+
+/-- no hook, nothing rejected: the fragment the theorems are about -/
+def Env.plain : Env := { hook := none, rej := fun _ => false }
 
 end ParamVerif.Async
